@@ -38,6 +38,14 @@ claim("C10",
       "Trusted: the facts extractor (go/types constants, go/ast candidate nodes); scope.Names() order; sort.Sort modelled as a stable sort (enums have < 12 members in the cases).",
       "Coq proof (pigeonhole/permutation) + facts-to-table correspondence + property evaluated on observed tables", "DESIGN.md §5 C10")
 
+claim("C11",
+      "Coq theorems: an interface is a union of its package iff a non-interface defined type of the package has a method set containing the interface's (members = exactly those, each once, in name order), "
+      "and a struct's Implements list is exactly the analysed unions listing it, sorted, each once, independent of the iteration order over the union map. "
+      "Tied to /repo by comparing the model's union table (from go/types method-set facts) with fetchEnumsAndUnions (hook) and every struct node reachable in the real analysis graph (walked by pointer, registered in Types or not) with the model's back-links; "
+      "the property is also evaluated in Coq on the observed graph alone, and membership is re-derived with types.Implements as a third opinion.",
+      "Trusted: method sets and signatures as printed by go/types (implements = inclusion of (id, signature) pairs, exact for method-only interfaces; constraint interfaces are not generated); the graph walker.",
+      "Coq proof (filter/sort/permutation lemmas) + table and graph correspondence + types.Implements oracle", "DESIGN.md §5 C11")
+
 NOT_YET = "check not built yet in this round (planned, see DESIGN.md §6)"
 
 checks, na = [], []
